@@ -127,7 +127,7 @@ func renderErr(m *regexp2.Match, err error) string {
 // ---------------------------------------------------------------------------------------------
 // generators
 
-var fullAlphabet = []rune{'a', 'b', 'c', 'A', 'B', 'x', 'y', '1', '2', ' ', '-', '_', '\n', 'é', 'É', 'α', 'Α', 'я', 'k', 's', 0x212A, 0x301, 0xFFFD, 0x1F600}
+var fullAlphabet = []rune{'a', 'b', 'c', 'A', 'B', 'x', 'y', '1', '2', ' ', '-', '_', '\n', '[', '{', '@', '`', 'é', 'É', 'α', 'Α', 'я', 'k', 's', 0x212A, 0x301, 0xFFFD, 0x1F600}
 
 var allOptionBits = []regexp2.RegexOptions{regexp2.IgnoreCase, regexp2.Multiline, regexp2.ExplicitCapture, regexp2.Singleline,
 	regexp2.IgnorePatternWhitespace, regexp2.RightToLeft, regexp2.ECMAScript, regexp2.RE2, regexp2.Unicode}
@@ -320,7 +320,7 @@ func biasedAst(rng *rand.Rand, cfg gen.Config) *gen.Node {
 	cfg.MaxDepth = 1 + rng.Intn(2)
 	tail := gen.Random(rng, cfg)
 	var head *gen.Node
-	switch rng.Intn(13) {
+	switch rng.Intn(15) {
 	case 0: // leading string
 		head = lit(w())
 	case 1: // leading strings
@@ -350,7 +350,20 @@ func biasedAst(rng *rand.Rand, cfg gen.Config) *gen.Node {
 				lo := 1 + rng.Intn(2)
 				return &gen.Node{Kind: gen.KQuant, Lo: lo, Hi: lo + rng.Intn(3), Lazy: rng.Intn(3) == 0, Subs: []*gen.Node{cls()}}
 			case 2:
-				return &gen.Node{Kind: gen.KGroup, Subs: []*gen.Node{{Kind: gen.KAlt, Subs: []*gen.Node{lit(w()), cls(), lit(w()[:1])}}}}
+				// alternatives of a landmark, some with mandatory or optional whitespace around their core
+				ws := func(core *gen.Node) *gen.Node {
+					sp := func() *gen.Node {
+						return &gen.Node{Kind: gen.KQuant, Lo: rng.Intn(2), Hi: -1, Subs: []*gen.Node{{Kind: gen.KShort, Short: 's'}}}
+					}
+					switch rng.Intn(4) {
+					case 0:
+						return &gen.Node{Kind: gen.KSeq, Subs: []*gen.Node{sp(), core, sp()}}
+					case 1:
+						return &gen.Node{Kind: gen.KSeq, Subs: []*gen.Node{core, sp()}}
+					}
+					return core
+				}
+				return &gen.Node{Kind: gen.KGroup, Subs: []*gen.Node{{Kind: gen.KAlt, Subs: []*gen.Node{ws(lit(w())), ws(cls()), ws(lit(w()[:1]))}}}}
 			default:
 				return cls()
 			}
@@ -392,6 +405,29 @@ func biasedAst(rng *rand.Rand, cfg gen.Config) *gen.Node {
 			parts[len(parts)-2] = &gen.Node{Kind: gen.KCap, Subs: []*gen.Node{q}}
 		}
 		head = &gen.Node{Kind: gen.KSeq, Subs: parts}
+	case 10, 11: // what the ordinal-ignore-case prefix analysis looks at: two-character classes (real case pairs and
+		// look-alikes: ASCII non-letters 0x20 apart, letters with a third fold partner) and caseless literals
+		pairs := [][2]rune{{'A', 'a'}, {'B', 'b'}, {'[', '{'}, {']', '}'}, {'\\', '|'}, {'^', '~'}, {'@', '`'}, {'_', 0x7f}, {'K', 'k'}, {'S', 's'}, {'k', 0x212A}, {'1', 'Q'}, {'É', 'é'}, {'-', '\r'}}
+		caseless := []rune{',', '"', ':', '.', ';', '1', ' ', '-', '_', '@', '['}
+		var parts []*gen.Node
+		for k := 2 + rng.Intn(3); k > 0; k-- {
+			if rng.Intn(2) == 0 {
+				pr := pairs[rng.Intn(len(pairs))]
+				items := []gen.ClassItem{{Lo: pr[0], Hi: pr[0]}, {Lo: pr[1], Hi: pr[1]}}
+				if rng.Intn(2) == 0 {
+					items[0], items[1] = items[1], items[0]
+				}
+				parts = append(parts, &gen.Node{Kind: gen.KClass, Class: &gen.Class{Items: items}})
+			} else if rng.Intn(3) == 0 {
+				parts = append(parts, &gen.Node{Kind: gen.KLit, Ch: pairs[rng.Intn(len(pairs))][rng.Intn(2)]})
+			} else {
+				parts = append(parts, &gen.Node{Kind: gen.KLit, Ch: caseless[rng.Intn(len(caseless))]})
+			}
+		}
+		head = &gen.Node{Kind: gen.KSeq, Subs: parts}
+		if rng.Intn(4) == 0 {
+			head = &gen.Node{Kind: gen.KSeq, Subs: []*gen.Node{{Kind: gen.KQuant, Lo: rng.Intn(2), Hi: -1, Subs: []*gen.Node{{Kind: gen.KShort, Short: 'w'}}}, head}}
+		}
 	default: // positive lookahead in front
 		head = &gen.Node{Kind: gen.KLook, Subs: []*gen.Node{lit(w())}}
 	}
